@@ -465,7 +465,8 @@ def r6(R6, cfg, F):
         rs = [c for c in lb.calls() if c.callee and c.callee.name == 'raw_source']
         ld = [c for c in lb.calls() if c.callee and c.callee.best == 'asset::load_from_source']
         ok = len(rs) == 1 and len(ld) == 1 and lb.origins(rs[0].args[0]) == {('arg', 1)} and lb.origins(ld[0].args[0]) == {('call', rs[0].bb)} \
-            and lb.origins(ld[0].args[1]) == {('arg', 2)} and ld[0].dest['l'] == 0 and ld[0].callee.args[:1] == ['T']
+            and lb.origins(ld[0].args[1]) == {('arg', 2)} and ld[0].dest['l'] == 0 and ld[0].callee.args[:1] == ['T'] \
+            and not common.guards_of(lb, ld[0].bb) and common.inevitable(lb, [], ld[0].bb)      # whatever the type's extension list is: default_value has its say in load_from_source
         R6.check(ok, cfg, lb.path, 'Asset-loads-via-load_from_source(raw_source,id)', 'an Asset must be loaded from the (recording) source of the cache it is loaded into, under the requested id', lb.loc())
     else:
         R6.missing(cfg, 'impl Compound for T: Asset')
